@@ -143,7 +143,15 @@ theorem parse_tag_eq_model (s : Str) (hs : ∀ c ∈ s, c < 128) :
     · rfl
     · intro i hi t
       rw [middle i (hq i is hi his) t]; rfl
-  · first | rfl | simp [genexp, PyRt.mapM, unpack3, iterate, list_, str_split_single]
+  · first
+    | rfl
+    | (simp [genexp, PyRt.mapM, unpack3, iterate, list_, str_split_single]; done)
+    | (simp only [genexp, PyRt.mapM, unpack3, iterate, list_, str_split_single, List.map_cons, ok_bind, pure_ok, iterate_list,
+         list_iter, List.length_cons]
+       rw [mapM_ok _ (fun v => match v with | .str x => .list ((splitOn 46 x).map .str) | v => v) _
+         (by intro x hx; simp only [List.mem_map] at hx; obtain ⟨y, _, rfl⟩ := hx; simp [str_split_single])]
+       simp
+       try rfl)
 
 /-! ### `parse_wheel_filename` -/
 
